@@ -184,7 +184,9 @@ fn emit_node_queries(out: &mut impl Write, st: &mut Stats, tree: &Tree, text_len
         q(format!("dpr s {} {} {} {} {}", s.row, s.column, e.row, e.column, nid(n.descendant_for_point_range(s, e))));
     }
     // child_with_descendant: receiver = every ancestor on a sample basis: root, parent, self
-    q(format!("cwd {} {}", 0, nid(root.child_with_descendant(n))));
+    if idx > 0 {
+        q(format!("cwd {} {}", 0, nid(root.child_with_descendant(n))));
+    }
     let dc = n.descendant_count();
     for k in [1usize, 2, dc / 2, dc.saturating_sub(1)] {
         if k >= 1 && k < dc && idx + k < all.len() {
@@ -209,7 +211,7 @@ fn emit_node_queries(out: &mut impl Write, st: &mut Stats, tree: &Tree, text_len
         };
         let n2 = d.node();
         q(format!(
-            "{name} {} {} {} {} {} {} {}",
+            "{name} {} {} {} {} {}",
             ok as u8,
             cur_state(&d),
             n2.start_byte(),
